@@ -47,6 +47,13 @@ fn build_fns(w: u16) -> Vec<FnDef> {
             Some(Box::new(match_(var("en"), (MPat::True, match_(fcall(&eqw, vec![var("i"), var("x")]), (MPat::True, Expr::Left(Box::new(var("acc")))), (MPat::False, go_on()))), (MPat::False, go_on())))),
         ),
     });
+    // a body that never looks at its counter: exactly 2^W iterations, never exits
+    h.add_fn(FnDef {
+        name: "blind".into(),
+        params: vec![("acc".into(), u32t.clone()), ("ctx".into(), ctx_ty(w)), ("i".into(), Ty::U(w))],
+        ret: Some(Ty::either(u32t.clone(), u32t.clone())),
+        body: (vec![], Some(Box::new(Expr::Right(Box::new(fcall("inc32", vec![var("acc")])))))),
+    });
     h.fns
 }
 
@@ -95,6 +102,26 @@ pub fn run(rep: &Report) -> i32 {
             }
         })
         .collect();
+    // counter-blind body: must run exactly 2^W iterations
+    for &w in &widths {
+        if w > 8 && quick {
+            continue;
+        }
+        let fns = build_fns(w);
+        let free = vec![("xacc".to_string(), Ty::U(32)), ("xctx".to_string(), ctx_ty(w))];
+        let term = call(CallName::ForWhile("blind".into()), vec![var("xacc"), var("xctx")]);
+        rep.state();
+        rep.transition(1);
+        match pin_build(&term, &Ty::either(Ty::U(32), Ty::U(32)), &free, &fns, &[false]) {
+            Ok(p) => {
+                let ctx = Val::Tuple(vec![Val::u(w, 0), Val::u(32, 0), Val::Bool(false), Val::Bool(false), Val::u(8, 165)]);
+                for off in [0u32, 7] {
+                    drive::DUMMY.with(|env| pin_run(rep, "C09", &format!("for_while W={w} counter-blind body offset={off}"), &p, &[Val::u(32, off as u128), ctx.clone()], env, true));
+                }
+            }
+            Err((text, o)) => rep.violation("C09:not-compiled", format!("counter-blind for_while program for width {w} not compiled: {o:?}"), json!({"kind": "compile", "program": text, "expect": "accept", "observed": "reject"})),
+        }
+    }
     // Built is not Sync: rebuild per thread lazily
     let texts: Vec<(u16, String)> = programs.iter().map(|(w, p)| (*w, p.text.clone())).collect();
     drop(programs);
